@@ -187,6 +187,9 @@ type extractor struct {
 	errs []string
 	pins []string // SMT assertions pinning the extracted inputs
 	tooLong []string // soft constraints to add on the next round
+	objs    map[string]string // type#ref -> variable name (object identity, cycles)
+	importNames map[string]string
+	stmts   []string          // statements building the object graph
 	imports map[string]bool
 }
 
@@ -195,6 +198,10 @@ func (x *extractor) qual(p *types.Package) string {
 		return ""
 	}
 	x.imports[p.Path()] = true
+	if x.importNames == nil {
+		x.importNames = map[string]string{}
+	}
+	x.importNames[p.Path()] = p.Name()
 	return p.Name()
 }
 
@@ -305,7 +312,25 @@ func (x *extractor) lit(t Term, ty types.Type, depth int) string {
 			v := x.lit(mk(te.sortOf(u.Elem()), "select", x.u.heapGet(x.heap, region), t), u.Elem(), depth+1)
 			return fmt.Sprintf("func() %s { v := %s; return &v }()", tyStr, v)
 		}
-		return "&" + x.structLit(t, u.Elem(), depth)
+		// one Go variable per distinct object of the model (identity and cycles are preserved)
+		if x.objs == nil {
+			x.objs = map[string]string{}
+		}
+		key := tyStr + "#" + ref.String()
+		if name, ok := x.objs[key]; ok {
+			return name
+		}
+		if len(x.objs) >= 60 {
+			return x.fail("object graph too large")
+		}
+		name := fmt.Sprintf("govcObj%d", len(x.objs))
+		x.objs[key] = name
+		idx := len(x.stmts)
+		x.stmts = append(x.stmts, "")
+		body := x.structLit(t, u.Elem(), depth)
+		x.stmts[idx] = fmt.Sprintf("%s := &%s{}", name, types.TypeString(u.Elem(), x.qual))
+		x.stmts = append(x.stmts, fmt.Sprintf("*%s = %s", name, body))
+		return name
 	case *types.Interface:
 		tag, ok := x.scalar(mk(SInt, "if-tag", t))
 		if !ok || tag.Sign() == 0 {
@@ -325,7 +350,7 @@ func (x *extractor) lit(t Term, ty types.Type, depth int) string {
 func (x *extractor) structLit(ref Term, sty types.Type, depth int) string {
 	te := x.u.te
 	st := sty.Underlying().(*types.Struct)
-	if depth > 3 {
+	if depth > 12 {
 		x.fail("object graph too deep")
 		return types.TypeString(sty, x.qual) + "{}"
 	}
@@ -499,7 +524,7 @@ func tryReplay(eng *Engine, o *Obligation, info map[string]any, repo string) boo
 			}
 		}
 	}
-	rr, out, err := runHarness(eng, u.fn, pkg, argLits, x.imports, repo, globals)
+	rr, out, err := runHarness(eng, u.fn, pkg, argLits, x.imports, repo, globals, x.stmts, x.importNames)
 	info["replay_output"] = truncate(out, 3000)
 	if err != nil {
 		info["replay"] = "harness failed: " + err.Error()
@@ -659,7 +684,7 @@ func pinResult(u *Unit, o *Obligation, rt Term, ty types.Type, observed string) 
 }
 
 // runHarness writes an in-package test through -overlay and runs it.
-func runHarness(eng *Engine, fn *ssa.Function, pkg *types.Package, argLits []string, imports map[string]bool, repo string, globals []string) (*replayResult, string, error) {
+func runHarness(eng *Engine, fn *ssa.Function, pkg *types.Package, argLits []string, imports map[string]bool, repo string, globals []string, prelude []string, importNames map[string]string) (*replayResult, string, error) {
 	tmp, err := os.MkdirTemp("", "govc-replay-")
 	if err != nil {
 		return nil, "", err
@@ -667,17 +692,20 @@ func runHarness(eng *Engine, fn *ssa.Function, pkg *types.Package, argLits []str
 	defer os.RemoveAll(tmp)
 	var sb strings.Builder
 	sb.WriteString("package " + pkg.Name() + "\n\nimport (\n\t\"encoding/json\"\n\t\"fmt\"\n\t\"os\"\n\t\"testing\"\n")
-	allLits := strings.Join(argLits, " ")
+	allLits := strings.Join(argLits, " ") + " " + strings.Join(prelude, " ")
 	for p := range imports {
 		base := p
 		if i := strings.LastIndex(p, "/"); i >= 0 {
 			base = p[i+1:]
 		}
+		if n, ok := importNames[p]; ok {
+			base = n
+		}
 		if !strings.Contains(allLits, base+".") {
 			continue
 		}
 		if p != "encoding/json" && p != "fmt" && p != "os" && p != "testing" {
-			sb.WriteString("\t\"" + p + "\"\n")
+			sb.WriteString("\t" + base + " \"" + p + "\"\n")
 		}
 	}
 	sb.WriteString(")\n\n")
@@ -688,6 +716,9 @@ func runHarness(eng *Engine, fn *ssa.Function, pkg *types.Package, argLits []str
 		sb.WriteString(fmt.Sprintf("\tres.Globals[%q] = fmt.Sprint(%s)\n", "pre:"+g, g))
 	}
 	sb.WriteString("\tfunc() {\n\t\tdefer func() { if r := recover(); r != nil { res.Panicked = true; res.Panic = fmt.Sprint(r) } }()\n")
+	for _, p := range prelude {
+		sb.WriteString("\t\t" + p + "\n")
+	}
 	sig := fn.Signature
 	var call string
 	args := append([]string{}, argLits...)
